@@ -54,12 +54,67 @@ def setup_chain(h):
       return
 
 
+def setup_missing_id(h):
+  """Set-up bundles: formulas that mention a column id that does not exist yet (AttributeError), directly and
+  through a reference; then a column of that table gets exactly that id - by a rename, by AddColumn, or by the
+  undo of a rename away from it - and cells are edited: the formulas must come to life as in a fresh engine."""
+  from gx.gen_hist import World
+  rng, gen = h.rng, h.gen
+  w = World(h.doc)
+  ts = w.user_tables()
+  if not ts:
+    return
+  t = rng.choice(ts)
+  for tt in ts:
+    if len(tt["rows"]) < 2:
+      k = rng.randint(2, 4)
+      yield [["BulkAddRecord", tt["tableId"], [None] * k,
+              {c["colId"]: [gen.value_for(w, c, allow_bad=False) for _ in range(k)] for c in w.data_cols(tt)}]]
+  miss = rng.choice(["zz1", "zz2", "Total"])
+  yield [["AddColumn", t["tableId"], gen.new_name(), {"type": "Any", "isFormula": True,
+                                                       "formula": rng.choice(["$%s", "$%s * 2", "rec.%s", "str($%s) + 'x'"]) % miss}]]
+  other = rng.choice(ts)
+  rname = gen.new_name()
+  yield [["AddColumn", other["tableId"], rname, {"type": "Ref:%s" % t["tableId"], "isFormula": False}]]
+  w = World(h.doc)
+  trows = w.tables[t["tableId"]]["rows"]
+  orows = w.tables[other["tableId"]]["rows"]
+  if trows and orows:
+    yield [["BulkUpdateRecord", other["tableId"], list(orows), {rname: [rng.choice(trows) for _ in orows]}]]
+  yield [["AddColumn", other["tableId"], gen.new_name(), {"type": "Any", "isFormula": True, "formula": "$%s.%s" % (rname, miss)}]]
+  w = World(h.doc)
+  dcs = [c for c in w.data_cols(w.tables[t["tableId"]]) if c["colId"] != rname]
+  how = rng.random()
+  if dcs and how < 0.6:
+    c = rng.choice(dcs)
+    if rng.random() < 0.5:
+      yield [["RenameColumn", t["tableId"], c["colId"], miss]]
+    else:
+      yield [["UpdateRecord", "_grist_Tables_column", c["ref"], {"colId": miss}]]
+    if trows:
+      yield [["UpdateRecord", t["tableId"], rng.choice(trows), {miss: gen.value_for(w, c, allow_bad=False)}]]
+  elif how < 0.8:
+    yield [["AddColumn", t["tableId"], miss, {"type": "Int", "isFormula": False}]]
+    if trows:
+      yield [["UpdateRecord", t["tableId"], rng.choice(trows), {miss: rng.randint(1, 9)}]]
+  elif dcs:
+    c = rng.choice(dcs)
+    yield [["RenameColumn", t["tableId"], c["colId"], miss]]
+    r2 = h.bundles[-1]["res"] if h.bundles else None
+    yield [["RenameColumn", t["tableId"], miss, "tmp_" + miss]]
+    last = h.bundles[-1]["res"]
+    if last.ok and last.raw_undo:
+      yield [["ApplyUndoActions", last.raw_undo]]
+
+
 def install(h, cfg):
   from gx import engine_driver as ed
   from gx import recalc_harness as rh
   rh.install()
   if cfg.get("chain"):
     h.setup = setup_chain
+  elif h.rng.random() < 0.35:
+    h.setup = setup_missing_id
   orig_raw = h._raw
 
   def raw(uas):
